@@ -252,7 +252,15 @@ fn moves(tier: usize, seed: u64, out: &mut Out) {
             }
             let mut rest: Vec<BoardMove> = legal.iter().copied().filter(|m| Some(*m) != v.played).collect();
             rng.shuffle(&mut rest);
-            chosen.extend(rest.into_iter().take(MOVES_QUICK_EXTRA));
+            // special moves first (castling, en passant, promotions, corner captures, rook/king moves with rights, pieces landing
+            // on the en-passant square; checks are too frequent to count here), at most 8 of them, then the random extras
+            let (mut special, plain): (Vec<BoardMove>, Vec<BoardMove>) = rest.into_iter().partition(|m| {
+                let c = crate::gen::classify(b, m);
+                c.ep || c.castle || c.promo || c.corner_capture || c.rights_move || c.onto_ep
+            });
+            special.truncate(8);
+            chosen.extend(special);
+            chosen.extend(plain.into_iter().take(MOVES_QUICK_EXTRA));
             for m in &chosen {
                 emit_mv(out, b, m, "legal");
             }
